@@ -20,6 +20,7 @@ import (
 	"math/big"
 	"os"
 	"strconv"
+	"unicode/utf8"
 )
 
 type vReplayDoc struct {
@@ -328,3 +329,13 @@ func vRand() io.Reader { return cryptorand.Reader }
 func vOr(a, b bool) bool      { return a || b }
 func vAnd(a, b bool) bool     { return a && b }
 func vImplies(a, b bool) bool { return !a || b }
+
+// vLogErr: native-only diagnostics
+func vLogErr(tag string, err error) {
+	if err != nil {
+		fmt.Printf("VERIF-REPLAY-NOTE %s: %v\n", tag, err)
+	}
+}
+
+// vUTF8: is s valid UTF-8 (uninterpreted for the solver)
+func vUTF8(s string) bool { return utf8.ValidString(s) }
